@@ -96,6 +96,10 @@ def _wf(eng, v):
             eng.axioms.append(v.len <= _vals.BOUND)
     elif isinstance(v, VStr):
         eng.axioms.append(strlen(v.t) >= 0)
+    elif isinstance(v, VInt) and _vals.BOUND is not None and z3.is_const(v.t) and not z3.is_int_value(v.t):
+        # bounded refutation pass: look for SMALL counterexamples - integer inputs stay inside the domain over which quantifiers are expanded,
+        # so that a witness "between" two inputs is inside the domain as well
+        eng.axioms.append(z3.And(v.t >= -1, v.t <= 2 * _vals.BOUND))
     elif isinstance(v, VRec):
         for f in v.fields.values():
             _wf(eng, f)
@@ -420,11 +424,23 @@ def _validate_bmc(todo):
             if confirmed:
                 c["validated"] = "model pinned in the unbounded verification condition: sat"
                 kept.append(c)
+            elif _small_model(c.get("model") or {}, bmc.get("bound") or 1):
+                c["validated"] = "unbounded query undecided; every integer of the model lies inside the quantifier domain of the bounded pass"
+                kept.append(c)
             else:
                 dropped.append({"name": c["name"], "why": "not confirmed by the unbounded verification condition with the model's constants pinned"})
         bmc["counterexamples"] = kept
         if dropped:
             bmc["dropped"] = dropped
+
+
+def _small_model(model, bound):
+    """all integer-valued constants of the model lie within [-1, 2 * bound] (strictly inside the expansion domain [-1, 2 * bound + 1])"""
+    for name, val in model.items():
+        v = str(val).replace("(- ", "-").replace(")", "").strip()
+        if v.lstrip("-").isdigit() and not (-1 <= int(v) <= 2 * bound):
+            return False
+    return True
 
 
 def _subterms_consts(f, seen=None):
